@@ -294,6 +294,7 @@ def preload():
     # with the budget such a query answers `unknown`, which exo turns into an error (the F2 outcome).
     # 0 disables.  Harvested repository tests run without it (sim.harvest resets it to 0).
     z3.set_param("rlimit", int(os.environ.get("VERIF_Z3_RLIMIT", "20000000")))
+    sim.state.snapshot_module_globals()
     sim.state.memoise_pysmt_factory()
     sim.state.fast_inspect_stack()
     sim.state.snapshot_base()
